@@ -115,9 +115,14 @@ func NewSubscriberWithConcurrencyMode[T any](destination Observer[T], mode Concu
 // newSubscriberImpl creates a new subscriber implementation with the specified
 // synchronization behavior and destination observer.
 func newSubscriberImpl[T any](mode ConcurrencyMode, mu xsync.Mutex, backpressure Backpressure, destination Observer[T]) Subscriber[T] {
-	// Protect against multiple encapsulation layers.
+	// Protect against multiple encapsulation layers: an existing subscriber is reused, unless
+	// it synchronizes less than what is asked for. A pass-through operator (StartWith, Defer,
+	// Catch...) hands its own, possibly unsafe, subscriber upstream: a safe observable fed by
+	// several goroutines must not end up serialized by a lock that does nothing.
 	if subscriber, ok := destination.(Subscriber[T]); ok {
-		return subscriber
+		if existing, ok := destination.(*subscriberImpl[T]); !ok || mode == ConcurrencyModeUnsafe || existing.mode == mode || existing.mode == ConcurrencyModeSafe {
+			return subscriber
+		}
 	}
 
 	subscriber := &subscriberImpl[T]{
